@@ -86,9 +86,7 @@ def family_fixed(tier, seed, n=None):
             # edits between calls: the next call acts on exactly the exposed list
             for _ in range(2):
                 ed = rnd.choice(["l_append", "l_clear+", "l_assign", "l_setitem", "nl_append", "set_k"])
-                if kind == "sum" and ed in ("l_append", "l_clear+", "l_assign"):
-                    # quarantine of known finding C04-sum-after-content-change (witness: L/fixed/witness/sum_reassign)
-                    ed = "l_setitem"
+
                 if ed == "l_append" and size < 4:
                     ops.append({"op": "list", "kind": "l_append", "p": "o1.l", "vs": [bits(rnd.randrange(4), 2)]})
                     size += 1
@@ -144,7 +142,7 @@ def witness_sum_reassign():
 def family_randsz(tier, seed, n=None):
     """random-size lists: the size is always bounded by a top-level constraint (otherwise an open zone)"""
     out = []
-    kinds = ["size_only", "fe_it", "fe_idx", "sum_fixed", "uniq", "coupled", "edit_after"]
+    kinds = ["size_only", "fe_it", "fe_idx", "sum_fixed", "uniq", "coupled", "edit_after", "rs_sum", "rs_member"]
     per = 2 if tier == "quick" else 20
     for kind in kinds:
         for t in range(per):
@@ -153,6 +151,8 @@ def family_randsz(tier, seed, n=None):
             hi = rnd.choice([1, 2, 3])
             lo = rnd.choice([0, 0, 1]) if hi > 0 else 0
             w = rnd.choice([1, 2])
+            if kind == "rs_member":
+                lo = max(lo, 1)           # (an element constraint that excludes size 0: see C04-size-solved-before-elements)
             if kind == "uniq":
                 # quarantine of known finding C04-size-solved-before-elements: the element constraints of the generated
                 # programs are satisfiable for every admissible size (witness: L/randsz/witness/uniq)
@@ -170,6 +170,10 @@ def family_randsz(tier, seed, n=None):
                 body.append(E(B(rnd.choice(["le", "ge", "eq", "ne"]), {"k": "size", "l": "l"}, F("a"))))
             elif kind == "sum_fixed":
                 body.append(E(B("le", F("a"), {"k": "size", "l": "l"})))
+            elif kind == "rs_sum":
+                body.append(E(B(rnd.choice(["le", "ge"]), {"k": "sum", "l": "l"}, F("a"))))
+            elif kind == "rs_member":
+                body.append(E({"k": "in", "e": F("a"), "items": [{"k": "l", "p": "l"}], "neg": False}))
             world = {"classes": {"A": {"base": "", "fields": fields, "blocks": [{"name": "c1", "dynamic": False, "body": body}]}},
                      "population": [{"id": "o1", "cls": "A"}]}
             ops = [{"op": "construct", "o": "o1"}]
